@@ -8,12 +8,15 @@ import (
 )
 
 type gen struct {
-	repo  string
-	pkgs  map[string]*pkg
-	done  map[string]*summary
-	inpr  map[string]bool
-	order []string
-	nfail int
+	repo     string
+	pkgs     map[string]*pkg
+	done     map[string]*summary
+	inpr     map[string]bool
+	order    []string
+	nfail    int
+	loops    bool                // loops mode: loops are translated (Gen/BigIntLoops.v)
+	aux      map[string][]string // loops mode: auxiliary definitions per package (tables of literals)
+	auxNames map[string][]string
 }
 
 var pkgOrder = []string{"utils", "mimc7", "poseidon", "babyjub"}
@@ -136,12 +139,24 @@ func (g *gen) newTr(p *pkg, key string, fd *ast.FuncDecl, resParam int, recvMode
 			v = &val{t: ty, o: o}
 		case kBool, kInt, kZList, kIface, kSlice:
 			v = &val{t: ty, e: cn}
+		case kList:
+			if intList(ty) {
+				// the callee may write the elements in place
+				c := t.newCell(cn, cn, oParam)
+				c.pidx, c.ty = i, "list Z"
+				v = &val{t: ty, c: c}
+			} else {
+				v = &val{t: ty, e: cn}
+			}
+		case kByte:
+			v = &val{t: ty, e: cn}
 		default:
 			t.fail("parameter %s of unsupported type %s", name, ty)
 		}
 		t.params = append(t.params, &param{name: cn, t: ty, v: v, recv: recv})
 		t.env[name] = &binding{v: v}
 	}
+	isVariadic := func(f *ast.Field) bool { _, ok := f.Type.(*ast.Ellipsis); return ok }
 	if fd.Recv != nil {
 		f := fd.Recv.List[0]
 		n := ""
@@ -157,6 +172,9 @@ func (g *gen) newTr(p *pkg, key string, fd *ast.FuncDecl, resParam int, recvMode
 		}
 		for _, n := range f.Names {
 			add(n.Name, ty, false)
+		}
+		if isVariadic(f) {
+			t.params[len(t.params)-1].variadic = true
 		}
 	}
 	if fd.Type.Results != nil {
@@ -193,7 +211,7 @@ func (g *gen) translate(p *pkg, key string, fd *ast.FuncDecl) *summary {
 			t.fail("missing return")
 			return ""
 		}
-		if gc, ok := guardCuts[p.name+"."+key]; ok {
+		if gc, ok := guardCuts[p.name+"."+key]; ok && !g.loops {
 			stmts, k = t.applyGuardCut(gc, stmts)
 		}
 		body = t.block(stmts, k)
